@@ -18,7 +18,9 @@ type c15T struct {
 }
 
 var c15Atoms = [][2]string{{"int", "int"}, {"string", "string"}, {"bool", "bool"}, {"float", "float64"}, {"any", "any"},
-	{"rec", "rec"}, {"uni", "uni"}, {"ext.Plain", "ext.Plain"}}
+	{"rec", "rec"}, {"uni", "uni"}, {"ext.Plain", "ext.Plain"},
+	// user types whose names are also short names inside package_info blocks (an external type, a type parameter)
+	{"Plain", "Plain"}, {"T", "T"}}
 
 type c15Gen struct {
 	budget   int
@@ -28,7 +30,7 @@ type c15Gen struct {
 	inPkg    bool // inside package_info: its own types are written unqualified
 }
 
-var c15Few = []int{0, 3, 5, 7} // int, float, rec, ext.Plain
+var c15Few = []int{0, 3, 5, 7, 8} // int, float, rec, ext.Plain, Plain (the user record)
 
 func (g *c15Gen) atom(tag string) *c15T {
 	if g.symLeft {
@@ -162,9 +164,16 @@ func (t *c15T) show(level int) string {
 	return s
 }
 
+// inside a package_info block the block's own type names win: an unqualified
+// Plain there is ext.Plain, not the user's record of the same name
+var c15WantInPkg bool
+
 func (t *c15T) goType() string {
 	switch t.kind {
 	case 0:
+		if c15WantInPkg && t.fo == "Plain" {
+			return "ext.Plain"
+		}
 		return t.gotxt
 	case 5:
 		return ""
@@ -210,19 +219,31 @@ func stripAll(s string) string {
 	return string(b)
 }
 
-const c15Prelude = "package main\n\npackage_info ext =\n  type Box<T>\n  type Pair<T, U>\n  type Plain\n\n" + c15Types
+const c15PkgInfo = "package_info ext =\n  type Box<T>\n  type Pair<T, U>\n  type Plain\n\n"
 
-const c15Types = "type rec = {A: int}\ntype uni =\n  | UA of int\n  | UB\ntype grec<T> = {V: T}\n\n"
+// the order of the package_info block and the user types is a property of the run (see c15Order)
+var c15TypesFirst bool
+
+func c15PreludeNow() string {
+	if c15TypesFirst {
+		return "package main\n\n" + c15Types + c15PkgInfo
+	}
+	return "package main\n\n" + c15PkgInfo + c15Types
+}
+
+const c15Types = "type rec = {A: int}\ntype uni =\n  | UA of int\n  | UB\ntype grec<T> = {V: T}\ntype Plain = {P: int}\ntype T = {Tag: int}\n\n"
 
 func c15Place(pos int, t *c15T) (src string, want string) {
+	c15WantInPkg = pos == 3
 	gt := t.goType()
+	c15WantInPkg = false
 	switch pos {
 	case 0: // parameter annotation
-		return c15Prelude + "let f (x: " + t.show(0) + ") = x\n", "funcf(x" + gt + ")" + gt + "{"
+		return c15PreludeNow() + "let f (x: " + t.show(0) + ") = x\n", "funcf(x" + gt + ")" + gt + "{"
 	case 1: // record field
-		return c15Prelude + "type r2 = {F: " + t.show(0) + "; G: int}\n", "typer2struct{F" + gt + "Gint}"
+		return c15PreludeNow() + "type r2 = {F: " + t.show(0) + "; G: int}\n", "typer2struct{F" + gt + "Gint}"
 	case 2: // union payload
-		return c15Prelude + "type u2 =\n  | A of " + t.show(1) + "\n  | B\n", "typeu2_Astruct{Value" + gt + "}"
+		return c15PreludeNow() + "type u2 =\n  | A of " + t.show(1) + "\n  | B\n", "typeu2_Astruct{Value" + gt + "}"
 	case 3: // package_info signature, seen through a partial application's closure parameter
 		c15InPkg = true
 		sig := t.show(1)
@@ -231,11 +252,11 @@ func c15Place(pos int, t *c15T) (src string, want string) {
 			"(func(_r0" + gt + ")string{returnext.Fn(1,_r0)})"
 	}
 	if pos == 5 { // explicit type argument on a partial application (stored, and as a pipe stage)
-		return c15Prelude + "package_info ext2 =\n  let Conv<T>: string->int->T\n\nlet m () = ext2.Conv<" + t.show(0) + "> \"x\"\n\nlet m2 () = 3 |> ext2.Conv<" + t.show(0) + "> \"y\"\n",
+		return c15PreludeNow() + "package_info ext2 =\n  let Conv<T>: string->int->T\n\nlet m () = ext2.Conv<" + t.show(0) + "> \"x\"\n\nlet m2 () = 3 |> ext2.Conv<" + t.show(0) + "> \"y\"\n",
 			"returnext2.Conv[" + gt + "](\"x\",_r0)"
 	}
 	// explicit type argument
-	return c15Prelude + "package_info ext2 =\n  let Mk<T>: ()->[]T\n\nlet m () = ext2.Mk<" + t.show(0) + "> ()\n", "ext2.Mk[" + gt + "]()"
+	return c15PreludeNow() + "package_info ext2 =\n  let Mk<T>: ()->[]T\n\nlet m () = ext2.Mk<" + t.show(0) + "> ()\n", "ext2.Mk[" + gt + "]()"
 }
 
 func c15Check(pos int, g *c15Gen, t *c15T) {
@@ -306,6 +327,7 @@ func (g *c15Gen) spine(tag string, depth int) *c15T {
 }
 
 func c15Spine(pos int) {
+	c15TypesFirst = true // the user types come before the package_info block that reuses two of their names
 	g := &c15Gen{fewAtoms: true}
 	t := g.spine("t", envInt("VERIF_SPINE", 3))
 	c15Check(pos, g, t)
@@ -320,6 +342,7 @@ func Harness_C15_SpineTypeArgPartial() { c15Spine(5) }
 
 // structural family: trees from choices over four atoms
 func c15Run(pos int) {
+	c15TypesFirst = false
 	g := &c15Gen{budget: envInt("VERIF_NODES", 4), fewAtoms: true}
 	t := g.gen("t", envInt("VERIF_DEPTH", 2))
 	if verifChoice("rootparen", 2) == 1 {
@@ -338,6 +361,7 @@ func Harness_C15_TypeArgPartial() { c15Run(5) }
 // identifier family: one atom is an identifier of 3..6 symbolic lower-case
 // bytes, alone or under one constructor, in every position.
 func Harness_C15_Ident() {
+	c15TypesFirst = verifChoice("order", 2) == 1
 	pos := verifChoice("pos", 6)
 	g := &c15Gen{budget: 3, symLeft: true}
 	a := g.atom("t")
@@ -357,6 +381,7 @@ func Harness_C15_Ident() {
 
 // every concrete atom in every position
 func Harness_C15_Atoms() {
+	c15TypesFirst = verifChoice("order", 2) == 1
 	pos := verifChoice("pos", 6)
 	g := &c15Gen{budget: 1}
 	c15Check(pos, g, g.atom("t"))
